@@ -99,10 +99,34 @@ def run(ctx, rep):
     # does the Const arm copy before pushing?
     v = vmx.vmx(ctx)
     const_copies = set()
+    from rules.shared import truth, deref
+    all_copy = True
+    any_path = False
     for r in v['arms']['Const']['paths']:
-        for c in r['calls']:
-            if 'FromString' in c['callee'] or c['callee'].endswith('clone') or 'copy' in c['callee']:
-                const_copies.add('String')
+        if r['kind'] != 'continue':
+            continue
+        any_path = True
+        p_ = r['path']
+        copies = any('FromString' in c['callee'] for c in r['calls'])
+        # is the value established NOT to be a string on this path?
+        not_string = False
+        for c in p_.constraints:
+            if c[0][0] == 'switch':
+                val = c[0][1]
+                if val[0] == 'call' and ('PartialEq' in val[1]):
+                    args = [deref(p_.env, a) for a in val[2]]
+                    if any(a[0] == 'call' and a[1] == 'object::Object::tag' for a in args) and any(a == ('enum', 'object::Type', 'String') for a in args):
+                        is_ne = val[1].endswith('ne')
+                        t_ = truth(c)
+                        equal = (t_ and not is_ne) or ((not t_) and is_ne)
+                        if not equal:
+                            not_string = True
+            if c[0][0] == 'variant' and c[0][2] == 'object::Type' and c[1] and 'String' not in str(c[1]):
+                not_string = True
+        if not copies and not not_string:
+            all_copy = False
+    if any_path and all_copy:
+        const_copies.add('String')
     for ty in sorted(set(P) & set(M)):
         rep.ob(ty in const_copies, 'R10.4', 'vm::VM::run', 'Const hands out pooled %s by reference' % ty,
                'a %s literal lives in the constant pool (added at %s) and the VM mutates %s values in place (%s) while OpCode::Const pushes the pooled object itself: '
@@ -110,15 +134,34 @@ def run(ctx, rep):
     for ty in sorted(set(P) - set(M)):
         rep.good('R10.4', 'vm::VM::run', 'pooled %s' % ty, 'values of this type are never mutated in place', 'src/vm.rs')
     # R10.5
+    check_dedup(ctx, rep, 'R10.5')
+    rep.rule('R10.6', 'operands of the fused instructions are not truncated (a constant index that does not fit selects another constant)')
+    from rules import c02
+    c02.check_casts(ctx, rep, 'R10.6', only=('compiler::Compiler::compile_const_var_infix_expression', 'compiler::Compiler::add_constant'))
+
+
+def check_dedup(ctx, rep, rule):
+    """every path on which the de-duplication predicate can answer `true` compared the tags of both objects and their payloads
+    through Object::eq (words stripped of their tag must never decide equality)"""
+    F = ctx.facts()
     clos = [f for f in F.all_fns if f.path.startswith('compiler::Compiler::add_constant::{closure')]
-    ok = False
-    why = 'closure not found'
-    if len(clos) == 1:
-        names = [callee_name(t) for b, t in clos[0].calls()]
-        tag_cmp = sum(1 for n in names if n == 'object::Object::tag') == 2
-        eq = any(n == '<object::Object as core::cmp::PartialEq>::eq' or
-                 ('PartialEq' in n and n.endswith('::eq') and 'object::Object' in t['callee'].get('generic_args', ''))
-                 for n, t in ((callee_name(t), t) for b, t in clos[0].calls()))
-        ok = tag_cmp and eq
-        why = 'predicate calls: %s' % [n.split('::')[-1] for n in names]
-    rep.ob(ok, 'R10.5', 'compiler::Compiler::add_constant', 'dedup predicate', 'compares tags and then payloads through Object::eq: ' + why, 'src/compiler.rs')
+    if len(clos) != 1:
+        rep.bad(rule, 'compiler::Compiler::add_constant', 'dedup predicate', 'expected one predicate closure, found %d' % len(clos), 'src/compiler.rs')
+        return
+    fn = clos[0]
+    n = 0
+    for p in AbsInt(F, fn, max_paths=2000).run():
+        if p.exit != 'return':
+            continue
+        r = p.env.get('_0')
+        if r == ('int', 0, 'bool'):
+            continue
+        n += 1
+        names = [c[1] for c in p.calls]
+        tags = sum(1 for x in names if x == 'object::Object::tag')
+        eqs = [c for c in p.calls if c[1] == '<object::Object as core::cmp::PartialEq>::eq' or
+               ('PartialEq' in c[1] and c[1].endswith('::eq') and 'object::Object' in c[4]['callee'].get('generic_args', ''))]
+        ok = tags >= 2 and bool(eqs) and r is not None and r[0] == 'call' and 'PartialEq' in r[1]
+        rep.ob(ok, rule, 'compiler::Compiler::add_constant', 'dedup predicate path %d' % n,
+               'a path that can report "same constant" must compare both tags and then Object::eq; this one returns %s after calls %s' % (show(r)[:80], [x.split('::')[-1] for x in names]), fn.loc())
+    rep.count('dedup_true_paths', n)
